@@ -203,6 +203,7 @@ def seq_patterns(tier, rng):
             p = 'u' * lead + 's' * m or '-'
             ops.append('seq warehouse ' + p)
             ops.append('seq warehouse-product ' + p)
+            ops.append('seq warehouse-sum ' + p)
     for n in (0, 1, 2, 7) + (() if q else (3, 16, 64)):
         p = 's' * n or '-'
         ops += ['seq objseq ' + p, 'seq objlist ' + p, 'seq typedlist ' + p]
